@@ -977,3 +977,29 @@ def check_nan_screens(rule, kind, root=None):
             rule.bad("%s|%s|nan-screen|%s" % (kind, name, missing[0]), "x86_64 interval %s hashes `%s` without first testing it for NaN with an unordered self-compare (`vcomiss x, x; jp`): a NaN interval then seeds the hash like a value" % (name, missing[0]), "%s:%d" % (p, b.fn["ln"]))
         else:
             rule.ok("x86_64 interval %s screens every operand for NaN with an unordered self-compare" % name, file=p, line=b.fn["ln"])
+
+
+def check_disp_sign(rule, kind, root=None):
+    """slots above their base: a run-time displacement (`pos`, `sp_offset`, `8 * i`) is *added* to rsp / rdi / rsi /
+    rdx / rcx - a subtracted one addresses memory below the spill area or in front of the caller's arrays"""
+    p = path_of(kind)
+    builders = M.load_builders(p, root)
+    n = 0
+    for name, b in sorted(builders.items()):
+        for x in stream(b, builders):
+            if x.label is not None:
+                continue
+            for o in x.ops:
+                if getattr(o, "kind", None) != "mem" or not getattr(o, "sym", None):
+                    continue
+                base = [r_ for r_ in (o.regs or []) if r_ in ("rsp", "rdi", "rsi", "rdx", "rcx", "r8", "r9")]
+                if not base:
+                    continue
+                n += 1
+                neg = [s_ for s_ in o.sym if s_.startswith("-")]
+                if neg:
+                    rule.bad("x86|%s|%s|disp-sign|%s" % (kind, name, base[0]), "x86_64 %s %s: `[%s]` subtracts the run-time displacement `%s` from %s; slots and array elements lie at increasing addresses from their base" % (kind, name, o.text, neg[0][1:], base[0]), "%s:%d" % (p, b.fn["ln"]))
+                else:
+                    rule.ok("x86_64 %s %s: `[%s]` adds its displacement" % (kind, name, o.text), file=p, line=b.fn["ln"])
+    if n == 0:
+        rule.lost("memory operands with a run-time displacement in the x86_64 %s assembler" % kind)
